@@ -240,3 +240,30 @@ func VerifC10TimerAfterClose() {
 	}
 	verifrt.Reach("c10.after-close.end")
 }
+
+// VerifC10LongHistory: exactly-once over a long history.  A timer of a reporter-less scope is
+// recorded N times with distinct values, N a power of two up to 2^17 (the sizes at which
+// growth, batching or capping logic typically changes behaviour), then once more with a
+// symbolic value: the snapshot holds all N+1 values in order.  The history is concrete (the
+// engine has no symbolic-length slices); only the last value is symbolic.
+func VerifC10LongHistory() {
+	n := 1 << uint([]int{4, 10, 12, 16, 17}[verifrt.Choose("log2-records", 5)])
+	ts := NewTestScope("", nil)
+	tm := ts.Timer("t")
+	for i := 0; i < n; i++ {
+		tm.Record(time.Duration(i))
+	}
+	d := time.Duration(verifrt.Int64("last"))
+	tm.Record(d)
+	e, ok := ts.Snapshot().Timers()["t+"]
+	verifrt.Assert("c10.long-history.entry", ok)
+	if ok {
+		vals := e.Values()
+		verifrt.Assert("c10.long-history.every-value-delivered-exactly-once", len(vals) == n+1)
+		if len(vals) == n+1 {
+			verifrt.Assert("c10.long-history.values-in-order",
+				verifrt.And(vals[0] == 0, verifrt.And(vals[n/2] == time.Duration(n/2), verifrt.And(vals[n-1] == time.Duration(n-1), vals[n] == d))))
+		}
+	}
+	verifrt.Reach("c10.long-history.end")
+}
